@@ -246,6 +246,23 @@ CHECKS = {
          "from seeded delays, not from permuting the ready queue",
          "offline history checker with unique ids over recorded events + "
          "logical-step stall detector", "4 C12"),
+ "C15": ("exploration",
+         "In-process: concurrent sdo_read / expedited sdo_write / "
+         "coe_request tasks of one terminal run through the simulated "
+         "mailbox with MailboxLock and with ParallelMailboxLock; the "
+         "terminal model's ordered mailbox write/read events (counter, owner "
+         "tag) are checked for mutual exclusion and for the 1..7 counter "
+         "chain. Creation window: a second LockFile is opened (and takes a "
+         "counter) at every point between the creator's O_EXCL open and its "
+         "initialising write through an os proxy. Cross-process: 2-3 real "
+         "processes do locked exchanges on one lock file under random "
+         "sleeps; the shared append-only log is checked the same way.",
+         "cross-process schedules are uncontrolled (OS scheduler + random "
+         "sleeps); the controlled multi-process gate scheduler of the design "
+         "was not built for this property",
+         "offline history checker over events recorded at the simulated "
+         "terminal / shared log; deterministic fault point injection for "
+         "the creation window", "4 C15"),
 }
 
 NOT_YET = "check not built yet in this round (design in DESIGN.md section 4)"
